@@ -1,1 +1,4 @@
 pub mod pool;
+pub mod c16;
+pub mod eyes;
+pub mod c20;
